@@ -77,7 +77,7 @@ def run_unit(unit, acc):
                 continue
             case = dict(seam=unit["seam"], frame=unit["frame"], ego=unit["ego"], policy=unit["policy"],
                         ests=[est[i] for i in es], gts=[gt[j] for j in gs], crits=list(S.CRIT)[:3],
-                        thrs=list(S.THR) if unit["tier"] == "thorough" else ["tight", "per_label"])
+                        thrs=list(S.THR) if unit["tier"] == "thorough" else ["tight", "per_label", "zero"])
             if unit["seam"] == "manager":
                 case["mgr_filter"] = unit["mgr_filter"]
                 case["crits"] = ["box_per_label", "ring"]
